@@ -242,6 +242,7 @@ type c15Case struct {
 }
 
 var c15WordR = regexp.MustCompile(`\bR\b`)
+var c15WordInt = regexp.MustCompile(`\bint\b`)
 
 const c15Header = `package main
 
@@ -294,6 +295,12 @@ func (c *c15Case) decls() string {
 		col := c15WordR.ReplaceAllString(c.text, fmt.Sprintf("Nk%d", k))
 		fmt.Fprintf(&b, "type Nk%d = {Vk%d: int}\n\npackage_info pnk%d =\n  type Nk%d\n  let Hk%d: Nk%d->int\n\ntype RNk%d = {Fkn%d: %s; ZNk%d: int}\n\n", k, k, k, k, k, k, k, k, col, k)
 	}
+	if c.t.k != "unit" && c15WordInt.MatchString(c.text1) {
+		// the same expression over a type parameter (every `int` written T) in the signature of a
+		// generic foreign function, instantiated explicitly at int: substitution must reach every
+		// occurrence (also the second occurrence of one generic user type)
+		fmt.Fprintf(&b, "package_info psx%d =\n  let Sk%d<T>: T->%s\n\nlet sk%d () =\n  psx%d.Sk%d<int> 3\n\n", k, k, c15WordInt.ReplaceAllString(c.text1, "T"), k, k, k)
+	}
 	fmt.Fprintf(&b, "package_info pkx%d =\n  let Gk%d: ()->%s\n\n", k, k, c.text1)
 	fmt.Fprintf(&b, "let qk%d () =\n  pkx%d.Gk%d ()\n\n", k, k, k)
 	return b.String()
@@ -342,6 +349,12 @@ func c15Extract(src string) (map[string]string, error) {
 					out["pkginfo:"+name[2:]] = ""
 				} else {
 					out["pkginfo:"+name[2:]] = printNode(d.Type.Results.List[0].Type)
+				}
+			case strings.HasPrefix(name, "sk"):
+				if d.Type.Results == nil || len(d.Type.Results.List) == 0 {
+					out["subst:"+name[2:]] = ""
+				} else {
+					out["subst:"+name[2:]] = printNode(d.Type.Results.List[0].Type)
 				}
 			case strings.HasPrefix(name, "uk"):
 				ast.Inspect(d.Body, func(n ast.Node) bool {
@@ -514,6 +527,9 @@ func runC15(r *core.Run, tier string) {
 			} else if got != cw {
 				r.Violate("type-mapping:collision:"+c.text, fmt.Sprintf("type expression `%s` (R a user record whose name is also the short name of an external type declared later) is emitted as `%s`, the documented grammar gives `%s`", c.text, got, cw), files)
 			}
+		}
+		if c.t.k != "unit" && c15WordInt.MatchString(c.text1) {
+			check("subst", c.want)
 		}
 		check("pkginfo", c.want)
 	}
